@@ -887,6 +887,40 @@ def _nonempty_test(test, outcome, R):
     return "other"
 
 
+LOSSY_SCHEMES = ("ignore", "replace", "backslashreplace", "xmlcharrefreplace", "namereplace", "surrogateescape", "surrogatepass")
+
+
+def rule_cd2(ctx: Ctx):
+    """CD-2: text is encoded and decoded with the strict error scheme everywhere on the way of the data.  Any other scheme rewrites or
+    drops what the codec cannot represent -- 'replace' and 'ignore' lose it, 'backslashreplace' / 'xmlcharrefreplace' write an
+    escape of *another* syntax into the text (\\xe9 is not a JSON escape, &#233; is not CSV) -- and no stage reads it back."""
+    r = RuleResult("CD-2", "str.encode / bytes.decode on the way of the data use the strict error scheme: no scheme that drops or rewrites characters "
+                           "(ignore, replace, backslashreplace, xmlcharrefreplace, ...)")
+    prog = ctx.program
+    for rel, m in sorted(prog.by_relpath.items()):
+        if (ctx.scope is not None and rel not in ctx.scope) or not rel.startswith("rxsci/"):
+            continue
+        r.instances += 1
+        for n in ast.walk(m.tree):
+            if not (isinstance(n, ast.Call) and isinstance(n.func, ast.Attribute) and n.func.attr in ("encode", "decode")):
+                continue
+            e = n.args[1] if len(n.args) > 1 else next((k.value for k in n.keywords if k.arg == "errors"), None)
+            if e is None:
+                r.ob(True)
+                continue
+            lossy = isinstance(e, ast.Constant) and isinstance(e.value, str) and e.value != "strict"
+            fn = m.enclosing_function(n)
+            qn = m.scopes[fn].qualname if fn in m.scopes else "<module>"
+            r.ob(not lossy, lambda n=n, e=e, qn=qn: Finding(
+                "CD-2", "%s::%s{errors=%s}" % (rel, qn, getattr(e, "value", "?")), m.where(n),
+                "'%s' uses the error scheme %r: characters the codec cannot represent are %s instead of being reported, and nothing downstream turns "
+                "them back -- the text that is read back is not the text that was written" % (
+                    ast.unparse(n)[:70], e.value, "dropped or replaced" if e.value in ("ignore", "replace") else "rewritten as escapes of another syntax")))
+        r.ob(True)
+    r.require_instances(1)
+    return r
+
+
 def rule_fr3_prompt(ctx: Ctx):
     """FR-3 with the promptness clause (C11 only): a chunk is emitted before the next one is read."""
     return rule_fr3(ctx, lazy=True)
@@ -953,6 +987,15 @@ def rule_fr3(ctx: Ctx, lazy=False):
                 r3.ob(False, lambda p=p, cfg=cfg: Finding("FR-3", "%s::read{no-read}" % FILE, m.where(act), "on this path (%s) nothing is read from the file: [%s]" % (
                     cfg_str(cfg), "; ".join(e.brief() for e in p.trace if e.k == "decision")), trace_of(p)))
                 continue
+            # what is read: the object the caller gave, or the file opened from the path the caller gave
+            fparam = fn.args.args[0].arg
+            for R in reads:
+                b = R.d.get("base")
+                # (directly, or through whatever opens / wraps it: open_obj(file, ...), contextlib.nullcontext(file))
+                src_ok = b is not None and any(isinstance(x, tuple) and len(x) > 1 and x[0] == "param" and x[1] == fparam for x in subterms(b))
+                r3.ob(src_ok, lambda R=R, b=b, p=p, cfg=cfg: Finding(
+                    "FR-3", "%s::read{source}" % FILE, R.where(), "on this path (%s) the chunks are read from %s: it must be the file object given as '%s', or the file "
+                    "opened from that path" % (cfg_str(cfg), show(b) if b is not None else None, fparam), trace_of(p)))
             want = []
             bad = None
             for k, R in enumerate(reads):
